@@ -15,7 +15,9 @@ EXPLANATION = (
     "equal; R3 find_duplicate_reaction: a key is stored in `seen` only in the not-seen arm (as a non-empty list), reported only in the seen arm, any "
     "further guard on the report is a tautology there, the index is appended in the seen arm, the loop covers the whole check list, `first` is the "
     "first index of every key seen more than once, brief mode compares Reaction(reactants, products) (multiplicity kept), string modes format each "
-    "reaction with names in a total (name) order; R4 remove_reaction(list[int]) keeps exactly the positions not listed.")
+    "reaction with names in a total (name) order -- and, whatever the shape of the table, no entry is overwritten for a key already present; "
+    "R4 remove_reaction(list[int]) keeps exactly the positions not listed, and callers that remove duplicates pass the position list; R5 the "
+    "comparison methods (Reaction.__eq__/__hash__/__format__, Species.__eq__/__hash__/__lt__) write nothing into the instance and are not memoised.")
 ASSUMPTIONS = [
     "the result on a given list and transitivity effects of the UNKNOWN wildcard in Reaction.__eq__ are not decided",
     "equal species names were parsed with equal prefix/symbol arguments",
@@ -34,6 +36,7 @@ def check(ctx):
     _r3(ctx, pkg)
     _r4(ctx, pkg)
     _r4_callers(ctx, pkg)
+    _r5(ctx, pkg)
 
 
 def _r1(ctx, pkg):
@@ -87,6 +90,17 @@ def _r3(ctx, pkg):
     stores = [f for f in fl.facts if f.kind == "store" and f.target == "seen"]
     reports = [f for f in fl.facts if f.kind == "append" and f.target in ("dupes", "dupidx")]
     grows = [f for f in fl.facts if f.kind == "call" and f.target == "append" and f.value[1][0] == "sub" and f.value[1][1] == ("acc", "seen")]
+    # whatever the shape of the table: an entry written for a key that is already there, with a value that does not
+    # build on the old entry, forgets the first occurrence -- and `first` / the report are derived from the table
+    for st in stores:
+        k_ = simp(st.index)
+        unseen = ("cmp", ("NotIn",), (k_, ("acc", "seen")))
+        g_ = [(simp(g), p) for g, p in st.guards]
+        reads_old = any(x == ("acc", "seen") for x in walk(simp(st.value)))
+        if (unseen, True) not in g_ and (("cmp", ("In",), (k_, ("acc", "seen"))), False) not in g_ and not reads_old:
+            ctx.bad("R3", "store only when unseen", (NF, st.line), "the first-seen table is overwritten for a key that is already in it: the recorded occurrence is the previous one, not the first "
+                    "(classes of three or more members report a wrong first member)", expected="if chk not in seen: seen[chk] = [idx]",
+                    found="; ".join(("" if p else "not ") + show(g)[:60] for g, p in g_) or "unguarded store")
     if len(stores) != 1 or len(reports) != 2 or len(grows) != 1:
         ctx.unrec("R3", "find_duplicate_reaction", W, f"first-seen table not recognised (stores {len(stores)}, report appends {len(reports)}, growth {len(grows)})")
         return
@@ -208,6 +222,31 @@ def _r4(ctx, pkg, rule="R4"):
               expected="[r for idx, r in enumerate(self.reaction_list) if idx not in reaction]", found=found)
 
 
+def _r5(ctx, pkg):
+    """The comparison keys (==, hash, the formatted strings of the string modes, the species ordering used inside them)
+    are computed from the reaction's current fields on every call: the methods keep nothing in the instance."""
+    from .c05 import CACHES
+    from .c14 import _self_writes
+    n = 0
+    for cls, meths in (("Reaction", ("__eq__", "__hash__", "__format__")), ("Species", ("__eq__", "__hash__", "__lt__"))):
+        ci = pkg.cls(cls)
+        for m in meths:
+            fn = ci.methods.get(m)
+            if fn is None:
+                ctx.missing("R5", f"{cls}.{m}", (ci.file, ci.node.lineno), "comparison method vanished")
+                continue
+            n += 1
+            ctx.saw(ci.file, f"{cls}.{m}")
+            w = _self_writes(fn)
+            decs = [ast.unparse(d) for d in fn.decorator_list if any(c in ast.unparse(d) for c in CACHES)]
+            ok = not w and not decs
+            ctx.check(ok, "R5", f"{cls}.{m}:keeps nothing", (ci.file, min(w.values()) if w else fn.lineno),
+                      "the key is recomputed from the current fields on every call" if ok else
+                      f"`{cls}.{m}` stores into the instance ({sorted(w) or decs}): a key computed once (e.g. while the reaction is still being parsed, or before an edit) is compared ever after",
+                      expected="no write to self.* and no cache decorator", found=", ".join(sorted(w)) or ", ".join(decs))
+    ctx.floor("R5", "comparison methods", n, 6)
+
+
 def _r4_callers(ctx, pkg, rule="R4"):
     """De-duplication removes the LATER copies: callers hand remove_reaction the position list of find_duplicate_reaction,
     not the duplicate objects (removal by object is removal by equality, which also removes the copy to keep)."""
@@ -268,6 +307,11 @@ def _r4_callers(ctx, pkg, rule="R4"):
 
 
 MUTANTS = [
+    {"name": "format-memoised-in-instance", "edits": [
+        {"file": RF, "old": "    def __format__(self, form: str) -> str:\n        verbose = None\n", "new": "    def __format__(self, form: str) -> str:\n        verbose = self.__dict__.setdefault('_kf', {}).get(form)\n        if verbose is not None:\n            return verbose\n"},
+        {"file": RF, "old": '            raise ValueError(f"Unknown format: {form}")\n\n        return verbose', "new": '            raise ValueError(f"Unknown format: {form}")\n\n        self._kf[form] = verbose\n        return verbose'}], "rules": ["R5"]},
+    {"name": "seen-table-last-index", "file": NF, "old": "            if chk not in seen:\n                seen[chk] = [idx]\n            else:\n                if len(seen[chk]) >= 1:\n                    dupes.append(reactions[idx])\n                    dupidx.append(idx)\n                seen[chk].append(idx)\n",
+     "new": "            if chk in seen:\n                dupes.append(reactions[idx])\n                dupidx.append(idx)\n            seen[chk] = [idx]\n", "rules": ["R3"]},
     {"name": "extend-removes-dupes-by-object", "file": "naunet/console/commands/extend.py", "old": "            _, dupidx, _ = net.find_duplicate_reaction()\n            net.remove_reaction(dupidx)", "new": "            dupes, _, _ = net.find_duplicate_reaction()\n            net.remove_reaction(dupes)", "rules": ["R4"]},
     {"name": "hash-reads-temp-min", "file": RF, "old": "                frozenset(Counter(self.products).items()),\n", "new": "                frozenset(Counter(self.products).items()),\n                self.alpha,\n", "rules": ["R1"]},
     {"name": "hash-sorted-by-name", "file": RF, "old": "        return hash(\n            (\n                frozenset(Counter(self.reactants).items()),\n                frozenset(Counter(self.products).items()),\n            )\n        )\n", "new": "        return hash(tuple([*sorted(self.reactants), *sorted(self.products)]))\n", "rules": ["R1"]},
